@@ -377,8 +377,15 @@ func runC06A(r *R) {
 		r.Fail("output/not-closed/"+sp.Kind, "the result file was opened %d times and closed %d times when Run returned", opened, closed)
 	}
 	if diskFaultFired {
-		// under an injected disk error: never garbage (checked above), nothing else is promised by the property
+		// under an injected disk error: never garbage (checked above), and the failure is reported: samples that
+		// the aggregator accepted did not reach the file, so its Run must not end as a success
 		r.Note("A/disk-fault-fired")
+		for _, k := range []string{"write-error", "short-write", "close-error"} {
+			if disk.Fired[k] > 0 && runErr == nil {
+				r.Fail("disk-error-swallowed/"+sp.Kind+"/"+k, "the result file met %s %d times (plan %+v) but the aggregator's Run returned nil; %d lines are on disk, %d reports were made", k, disk.Fired[k], plan, nlines, total)
+				break
+			}
+		}
 		return
 	}
 	dropped := droppedFrom(runErr)
